@@ -110,8 +110,8 @@ def storeOne (d : Durable) (e : Entry) : Durable :=
 
 def deleteRangeD (d : Durable) (lo hi : Nat) : Durable :=
   let low' := if lo ≤ d.low then hi + 1 else d.low
-  -- `min - 1` on a uint64: wraps when min = 0
-  let high' := if hi ≥ d.high then (if lo = 0 then 18446744073709551615 else lo - 1) else d.high
+  -- (`lo - 1` is 0 when `lo = 0`: the repaired InmemStore no longer wraps there)
+  let high' := if hi ≥ d.high then lo - 1 else d.high
   { d with log := d.log.filter (fun e => ¬ (lo ≤ e.index ∧ e.index ≤ hi))
            low := if low' > high' then 0 else low'
            high := if low' > high' then 0 else high' }
